@@ -135,6 +135,10 @@ func cmdAtxn(fs *flag.FlagSet, args []string) {
 					emit("afree %s %d %d", k.tag, t, n)
 				case x < 9:
 					tx[t].PreCommit()
+					// between PreCommit and the journal's commit nothing of the transaction is visible to others yet — in
+					// particular the numbers it frees are not available: their zero images and free bits are in its private buffers
+					emit("aprecommit %d", t)
+					state()
 					ok := tx[t].Op.CommitWait(true)
 					if ok {
 						tx[t].PostCommit()
